@@ -1096,6 +1096,7 @@ func c17Sort(c *Ctx) {
 		arms[kind] = true
 		// effects: one trusted sort call on S; one store recv.spine = NewListFrom(S).(*list).spine
 		var sortArg, handover Term
+		var rebuild *LoopRec
 		nSort, nStore, other := 0, 0, ""
 		for _, s := range p.Effects() {
 			switch s.Kind {
@@ -1119,6 +1120,12 @@ func c17Sort(c *Ctx) {
 					continue
 				}
 				other = "store " + c.termStr(s.LHS)
+			case "loop":
+				if rebuild == nil && nSort == 1 {
+					rebuild = s.Loop // after the sort call: candidate for the element-wise rebuild of the spine
+					continue
+				}
+				other = s.Kind
 			default:
 				other = s.Kind
 			}
@@ -1138,7 +1145,33 @@ func c17Sort(c *Ctx) {
 			ob.Fail("the sorted slice is not the typed slice view of kind %s of the receiver (found %s): other elements are lost or the list changes kind", kind, c.termStr(sortArg))
 			continue
 		}
-		// hand-over = spine of NewListFrom(S)
+		// hand-over = spine of NewListFrom(S), or the same thing spelled out: a fresh field slice filled in order with parseVal(item) of S
+		if rebuild != nil {
+			good = false
+			if lv, ok := handover.(TLoop); ok && lv.ID == rebuild.ID && rebuild.Range != nil && sameTerm(rebuild.Over, sortArg) && rebuild.Value != nil &&
+				len(rebuild.Iter) == 1 && len(rebuild.Iter[0].Conds()) == 0 && len(rebuild.Iter[0].Effects()) == 0 && (rebuild.Iter[0].End == "fall" || rebuild.Iter[0].End == "continue") {
+				acc := lv.Obj
+				if mk, ok := rebuild.Init[acc].(TBuiltin); ok && mk.Name == "make" && len(mk.Args) >= 1 {
+					if k, isK := constInt(mk.Args[0]); isK && k == 0 {
+						if ap, ok := rebuild.Iter[0].Env[acc].(TBuiltin); ok && ap.Name == "append" && len(ap.Args) == 2 && sameTerm(ap.Args[0], TLoop{acc, rebuild.ID}) {
+							if pv, ok := ap.Args[1].(TCall); ok && pv.Fun != nil && pv.Fun.Name() == "parseVal" && pv.Fun.Pkg() == c.Types && len(pv.Args) == 1 && isParamTerm(pv.Args[0], rebuild.Value) {
+								good = true
+							}
+						}
+					}
+				}
+			}
+			if !good {
+				ob.Fail("the sorted slice is not rebuilt element-wise (fresh slice; append(parseVal(item)) for every item in order) and installed as the RECEIVER's spine")
+				continue
+			}
+			if p.End != "return" || len(p.Vals) != 1 || !v.isEgo(p.Vals[0]) {
+				ob.Fail("the arm does not return the registered ego")
+				continue
+			}
+			ob.Ok("%s: %s() -> trusted sort -> receiver.spine = fresh slice of parseVal(item) for every item in order; returns ego", kind, sc.Fun.Name())
+			continue
+		}
 		hb, hct := v.spineOf(handover)
 		good = hct != nil && hct.IsList
 		if good {
